@@ -1179,7 +1179,13 @@ def compare_step(obs: dict[str, Any], prev: dict[str, Any] | None = None, kind: 
     state: dict[str, Any] = {"extra": set(), "missing": set(), "status": None, "order": False}
     obs["_state"] = state
     if "crash" in f:
-        return None if "crash" in d else ("harness:fresh-crash", f["crash"][-400:])
+        if "crash" in d:
+            return None
+        frames_f = re.findall(r'File "[^"]*/mypy/([^"]+)", line \d+, in (\w+)', f["crash"])
+        inner = [fr for fr in frames_f if fr[1] not in ("report_internal_error", "accept")]
+        where_f = "/".join(inner[-1]) if inner else "?"
+        return (f"oracle:fresh-run-internal-error:{where_f}",
+                "the fresh non-incremental run itself dies with an INTERNAL ERROR (" + where_f + ") where the daemon answers: " + str(d.get("msgs", [])[:2]))
     if "crash" in d:
         tb = d["crash"]
         exc = tb.strip().splitlines()[-1].split(":")[0]
@@ -1905,7 +1911,7 @@ def model_expr(call: dict[str, Any]) -> tuple[str, str, dict[str, Any]]:
         for t, ns in sorted(seen.items()):
             looktab.append(f"(({ncalls}%nat, {tgt(t)}), {coq_list([str(tgt(n)) for n in ns])})")
         livetab.append(f"({ncalls}%nat, {coq_list([str(md(m)) for m in it['graph'] if m in md.ix])})")
-        for g in it["groups"]:
+        for g in [g for g in it["groups"] if g["nodes"] or g["fired"] or g["new_deps"]]:
             reptab.append(f"({ncalls}%nat, ({md(g['module'])}, ({coq_list([str(trg(x)) for x in g['fired']])}, {coq_deps(g['new_deps'] or {}, trg, tgt)})))")
             ncalls += 1
     expr = (f"run_trace {coq_deps(call['deps0'], trg, tgt)} {modtab} {coq_list(looktab)} {coq_list(reptab)} {coq_list(livetab)} "
